@@ -616,6 +616,8 @@ def programs(tier):
     reg("(arange(..,1;2 blocks)+x2)[a:b]", lambda w, E: _arange_plus(w, E), 6)
     # integer-list indices (take -> Shuffle) and shuffles pushed through other nodes
     reg("x3[[2,0,1]]", lambda w, E: p_take(w, E, source(w, E, "x", (3,)), 0, [2, 0, 1]), 6)
+    reg("broadcast_to(x2+1,(n,)+shape)[:,[1,0,0]]", lambda w, E: p_take(w, E, p_broadcast(w, p_elemwise(w, plus_one_ufunc, source(w, E, "x", (2,))), (E.int("lead", 1),)), 1, [1, 0, 0]), 6)
+    reg("broadcast_to(x2,(n,)+shape)[[0,0],:]", lambda w, E: p_take(w, E, p_broadcast(w, source(w, E, "x", (2,)), (E.int("lead", 1),)), 0, [0, 0]), 6)
     reg("x2x2[:,[1,0,0]]", lambda w, E: p_take(w, E, source(w, E, "x", (2, 2)), 1, [1, 0, 0]), 6)
     reg("(x2+y2)[[1,2,0]]", lambda w, E: p_take(w, E, _add_aligned(w, E, (2,)), 0, [1, 2, 0]), 8)
     reg("transpose(x2x2)[[1,0]]", lambda w, E: p_take(w, E, p_transpose(w, source(w, E, "x", (2, 2)), (1, 0)), 0, [1, 0]), 8)
